@@ -95,6 +95,8 @@ class Ctx:
                             if e.get('status') == 'open' and e.get('property') == pid}
         self._case_failed = False
         self.coverage = {}
+        self._held_old = []
+        self._held_new = []
 
     # ---- cases -------------------------------------------------------------------------------
     def case(self, sig, nontrivial=True, sample=None, info=None):
@@ -126,6 +128,23 @@ class Ctx:
         m['checks'] += n
         if in_situ:
             m['in_situ'] += n
+
+    def hold(self, fn):
+        """Register a re-verification of a result obtained in this case; it is run after the NEXT case of the run has made its own calls
+        (a result must stay valid when later calls are made: no shared output buffers, no caches handing out the same arrays)."""
+        self._held_new.append((self.cur, fn))
+
+    def run_held(self):
+        old, self._held_old, self._held_new = self._held_old, self._held_new, []
+        for cur, fn in old:
+            save = self.cur
+            self.cur = (cur[0], cur[1])
+            try:
+                fn()
+            except CaseAbort:
+                pass
+            finally:
+                self.cur = save
 
     def event(self, name, n=1):
         self.events[name] += n
@@ -385,6 +404,10 @@ def _run_workloads(ctx, spec, only=None):
                         print(tb, file=sys.stderr)
                     ctx.event('harness_errors')
             ctx.workloads[wl.name] += 1
+            try:
+                ctx.run_held()
+            except Exception as e:
+                ctx.mark_inconclusive(f'harness error in held re-verification: {type(e).__name__}: {str(e)[:100]}')
         if wl.exhaustive and not only and n > 0:
             e = dict(wl.exhaustive)
             e['workload'] = wl.name
